@@ -75,6 +75,7 @@ func c01Corpus(p *vPeer, seid uint64, n int) []c01Seed {
 	add("hbresp2", vMarshal(message.NewHeartbeatResponse(2, ie.NewRecoveryTimeStamp(p.startTS))))
 	add("pfd", p.pfdMgmt(12, []vPFDApp{{ID: "app1", Flows: []string{"permit out tcp from 10.1.0.0/16 80-88 to assigned", "permit in udp from assigned to 10.2.2.2 53"}}, {ID: "app2", Flows: []string{"permit out ip from any to assigned"}}}))
 	add("asreq", p.assocSetup(13))
+	add("asreq-fqdn", vMarshal(message.NewAssociationSetupRequest(13, ie.NewNodeID("", "", "smf.core.example.org"), ie.NewRecoveryTimeStamp(p.startTS))))
 	add("asresp", vMarshal(message.NewAssociationSetupResponse(1, ie.NewNodeID(p.nodeID, "", ""), ie.NewCause(ie.CauseRequestAccepted), ie.NewRecoveryTimeStamp(p.startTS))))
 	add("arreq", p.assocRelease(14))
 	base := c10Session(15, 0x5000+uint64(n), n)
@@ -98,6 +99,11 @@ func c01Corpus(p *vPeer, seid uint64, n int) []c01Seed {
 		{ID: 3, QFI: 9, HasQFI: true, HasMBR: true, MBRUL: 5000, MBRDL: 5000},
 	}
 	add("est-3qer-sdf", p.establish(q3))
+	for i, sdf := range []string{"permit out udp from 10.9.0.0/16 65530-65535 to assigned", "permit out tcp from 10.9.0.0/16 0-3 to assigned", "permit out udp from any 65535 to assigned", "permit out udp from 10.9.1.0/24 1-65535 to assigned"} {
+		e := c10Session(uint32(30+i), 0x8800+uint64(n)+uint64(i)<<20, n)
+		e.PDRs[0].SDF, e.PDRs[1].SDF = sdf, sdf
+		add(fmt.Sprintf("est-sdf-edge%d", i), p.establish(e))
+	}
 	nop := vEstSpec{Seq: 19, CPSEID: 0x9000 + uint64(n)}
 	add("est-nopdr", p.establish(nop))
 	nop2 := vEstSpec{Seq: 20, CPSEID: 0x9100 + uint64(n), FARs: base.FARs, QERs: q3.QERs}
@@ -323,6 +329,7 @@ func c01Case(res *vResult, agents []*c01Agent, idx int, forced *c01Plan) {
 	// ---- the hostile datagram
 	corpus := c01Corpus(p, seid, idx%50000)
 	plan := c01Plan{Agent: ag.name, State: state}
+	flood := 0
 	var mutant []byte
 	dkey := ""
 	if forced != nil {
@@ -352,6 +359,11 @@ func c01Case(res *vResult, agents []*c01Agent, idx int, forced *c01Plan) {
 			}
 			plan.Seed, plan.Ops = s.name, []string{fmt.Sprintf("truncate@%d", cut)}
 			dkey = fmt.Sprintf("%s|truncate|%s", s.name, state)
+		case kind == 3 && rng.Intn(3) == 0: // a burst of valid heartbeat requests (more than any internal queue holds)
+			flood = 101 + rng.Intn(80)
+			mutant = p.heartbeat(0x600000)
+			plan.Seed, plan.Ops = "hbreq", []string{fmt.Sprintf("burst x%d", flood)}
+			dkey = fmt.Sprintf("hbreq|burst|%s|%s", ag.name, state)
 		case kind == 2: // the valid message itself, in this state
 			s := corpus[rng.Intn(len(corpus))]
 			mutant = s.raw
@@ -402,7 +414,17 @@ func c01Case(res *vResult, agents []*c01Agent, idx int, forced *c01Plan) {
 	res.begin(idx, fmt.Sprintf("c01 %s %s %s %v", ag.name, state, plan.Seed, plan.Ops), plan)
 
 	var ex vExchange
-	if state == "fresh" {
+	if flood > 0 {
+		for k := 0; k < flood; k++ {
+			p.send(p.heartbeat(uint32(0x600000 + k)))
+			if k%16 == 15 {
+				p.drain(2 * time.Millisecond) // keep the socket buffers from overflowing
+			}
+		}
+		res.event("heartbeats_in_bursts", flood)
+		ex = p.barrier(&vExchange{})
+		ex.Replies = nil // one reply per heartbeat is expected here; counted by C02/C12
+	} else if state == "fresh" {
 		p.send(mutant)
 		time.Sleep(300 * time.Microsecond)
 		ex = p.barrier(&vExchange{})
@@ -495,6 +517,11 @@ func c01NoAnswer(res *vResult, ag *c01Agent, what string, plan *c01Plan) {
 			seed = plan.Seed
 		}
 		res.violate("C01.R3", frame, "receive path wedged: no answer to "+what+"; handler parked in "+frame+" ("+seed+")", map[string]interface{}{"plan": plan, "goroutine": dump})
+	} else if plan != nil {
+		// not parked, yet mute: the datagram left the association (or the agent) in a state in which valid requests are
+		// processed without ever being answered (e.g. every reply dies in a recovered panic). Requests were repeated
+		// for more than ten seconds before this point.
+		res.violate("C01.R5", "mute-after "+plan.Seed, "after the hostile datagram there is no answer to "+what+" although no handler is parked (agent "+ag.name+"): valid requests are no longer processed normally", map[string]interface{}{"plan": plan})
 	} else {
 		res.inconclusive("no answer to " + what + " but no parked handler in the goroutine dump (agent " + ag.name + ")")
 	}
